@@ -469,10 +469,42 @@ let () =
                                                (key "fns", Json.JArr (Stdlib.List.map jstr (Gen.emitted_fn_names i)));
                                                (key "known", Json.JArr (Stdlib.List.map (fun c -> Json.JStr (key (match c with
                                                    | Gen.GReserved -> "ReservedIdent" | Gen.GDupType -> "DuplicateTypeName" | Gen.GDupFn -> "DuplicateFnName"
-                                                   | Gen.GFixedName -> "TypedefShadowsGeneratedName" | Gen.GKeywordFn -> "MethodNameIsKeyword"))) (Gen.known_classes i))) ]))
+                                                   | Gen.GFixedName -> "TypedefShadowsGeneratedName" | Gen.GKeywordFn -> "MethodNameIsKeyword"
+                                                   | Gen.GBindingVariant -> "ParameterNamedLikeEnumMember"))) (Gen.known_classes i))) ]))
          | Idl.OParseError | Idl.ODuplicates _ -> "err"
          | Idl.OOutOfFuel -> "FUEL")
       | _ -> failwith "gen_model")
+
+(* ---- generated bindings on the wire (C08) ---- *)
+let cps_of_ascii (s : string) : coq_N list = bytes_of_string s
+let () =
+  (* codec <idl> <kind: in|out|err> <name> <json> : read the JSON against the parameter struct of the
+     method input / output / error, and write it back as the bindings put it on the wire *)
+  register "codec" (fun a ->
+      match a with
+      | [x; kind; name; j] ->
+        (match Idl.try_from (codepoints (unhex x)) with
+         | Idl.OIdl i ->
+           let env = Gen.typedefs_of i in
+           let nm = cps_of_ascii name in
+           let fields =
+             if kind = "err" then
+               (try Some (snd (Stdlib.List.find (fun (n, _) -> n = nm) (Gen.errors_of i))) with Not_found -> None)
+             else
+               (try let ((_, a), b) = Stdlib.List.find (fun ((n, _), _) -> n = nm) (Gen.methods_of i) in
+                  Some (if kind = "in" then a else b) with Not_found -> None) in
+           (match fields, Json.parse_value (hb j) with
+            | Some fs, Base.Ok jv ->
+              (match Codec.dec_top (Codec.dec_fuel jv) env fs jv with
+               | Some vs ->
+                 Printf.sprintf "ok wire=%s full=%s method=%s" (bh (Json.print (Json.norm (Codec.enc_top vs))))
+                   (bh (Json.print (Json.norm (Json.JObj (Stdlib.List.map (fun (n, v) -> (utf8_of_cps n, Codec.enc v)) vs)))))
+                   (bh (utf8_of_cps (Codec.wire_method i.Idl.i_name nm)))
+               | None -> "invalid")
+            | None, _ -> "nomethod"
+            | _, _ -> "notjson")
+         | _ -> "badidl")
+      | _ -> failwith "codec")
 
 let () =
   let tbl = handlers in
